@@ -106,7 +106,10 @@ def mutate(s, m):
     elif cl == "undef_subtype":
         E[0]["sexpr"]["kids"][1] = {"k": "leaf", "e": "nosuch_e"}
     elif cl == "subtype_not_listing":
-        E[2]["supers"] = [x for x in E[2]["supers"] if x != "e1"]
+        if m.get("pos") == "indirect":
+            E[0]["sexpr"] = {"k": "oneof", "kids": [{"k": "leaf", "e": E[1]["name"]}, {"k": "leaf", "e": E[2]["name"]}]}
+        else:
+            E[2]["supers"] = [x for x in E[2]["supers"] if x != "e1"]
     elif cl == "undef_schema":
         head = "USE FROM nosuch_s;\n"
     elif cl == "undef_function":
